@@ -5,7 +5,7 @@
           `holds` never calls the transform models. *)
 From Coq Require Import QArith.
 From stdpp Require Import strings gmap sets.
-From CG Require Export Base.Cases Model.Sensitivity.
+From CG Require Export Base.Cases Model.Sensitivity Proofs.SensitivityProofs.
 Open Scope string_scope.
 Open Scope nat_scope.
 
@@ -47,6 +47,15 @@ Definition agree (k : case) : bool :=
   | CSz C n Eo Tr Sz =>
       let Tm := sensitization_transform C n Eo in
       bool_decide (rmap (λ M, (c_name M, c_g M, c_bbs M)) Tm = rmap (λ p, (p.1, mk_g p.2, ∅)) Tr) &&
+      (* the recorded graph has the shape the theorem sensitization_shape_spec is about (so the theorem applies to it) *)
+      match Tr with
+      | Ok (_, nodes) =>
+          let c := c_g C in
+          let '(SC, E) := match Eo with
+                          | Some (e :: l) => let E : gset string := list_to_set (e :: l) in (induced c (E ∪ tfi c (e :: l)), E)
+                          | _ => (c, outputs c) end in
+          inputs_onlyb c && sub_ofb SC c && sens_shapeb SC n E (mk_g nodes)
+      | _ => true end &&
       match Sz with
       | None => true
       | Some Sr =>
@@ -65,6 +74,13 @@ Definition agree (k : case) : bool :=
   | CSv C n sp PC Tr cl bins Sn =>
       let Tm := sensitivity_transform C n sp PC in
       bool_decide (rmap c_g Tm = rmap mk_g Tr) &&
+      (* the recorded graph has the shape the theorem sensitivity_shape_spec is about *)
+      match Tr with
+      | Ok nodes =>
+          let c := c_g C in
+          let SUB := induced c (tfi c [n] ∪ {[n]}) in
+          inputs_onlyb c && sub_ofb SUB c && sv_shapeb SUB n sp (c_g PC) cl.2 (mk_g nodes)
+      | _ => true end &&
       match sp with
       | [] => true
       | _ => bool_decide (clog2 (length sp) = Ok cl.1) && bool_decide (clog2 (length sp + 1) = Ok cl.2) &&
